@@ -54,10 +54,15 @@ def declare_price():
     global PricePerMass
     if PricePerMass is None:
         PricePerMass = QuantityMeta("PricePerMass", (Quantity,), {}, define_as=Money / Mass)
+USD = Money.register_currency("USD")
 def derive_price_unit():
     global EUR_PER_KG
     declare_price()
     EUR_PER_KG = PricePerMass.derive_unit_from(EUR, KILOGRAM)
+def derive_usd_price_unit():
+    global USD_PER_KG
+    declare_price()
+    USD_PER_KG = PricePerMass.derive_unit_from(USD, KILOGRAM)
 '''
 
 # operations (label, python expression)
@@ -83,9 +88,14 @@ OPS = [
     ("EUR/g", "(6 * EUR) / (1000 * GRAM)"),
     ("unit EUR/g", "EUR / GRAM"),
     ("EUR/kg*g", "((6 * EUR) / (2 * KILOGRAM)) * (500 * GRAM)"),
+    ("USD/kg", "(6 * USD) / (2 * KILOGRAM)"),
+    ("USD/kg*kg", "((6 * USD) / (2 * KILOGRAM)) * (4 * KILOGRAM)"),
+    ("EUR/kg*kg", "((6 * EUR) / (2 * KILOGRAM)) * (4 * KILOGRAM)"),
+    ("kg*USD/kg", "(4 * KILOGRAM) * ((6 * USD) / (2 * KILOGRAM))"),
+    ("kg*EUR/kg", "(4 * KILOGRAM) * ((6 * EUR) / (2 * KILOGRAM))"),
 ]
 DECLS = ["declare_momentum()", "declare_jerk()", "declare_area_units()",
-         "declare_price()", "derive_price_unit()"]
+         "declare_price()", "derive_price_unit()", "derive_usd_price_unit()"]
 
 
 def script(root, steps):
